@@ -345,10 +345,36 @@ func runC09(p *Program, r *Report) {
 		"ensurePipelineContains|PipeNode.Cmds":    "as above (called from commit)",
 		"ensurePipelineContains|CommandNode.Args": "as above (called from commit)",
 	}
+	// a step of commit extracted into an unexported helper that only commit calls inherits commit's argument
+	onlyCalledBy := func(h *ssa.Function, caller string) bool {
+		if h.Object() == nil || h.Object().Exported() {
+			return false
+		}
+		n := 0
+		for _, f := range p.SrcFuncs() {
+			if f.Pkg != h.Pkg {
+				continue
+			}
+			for _, b := range f.Blocks {
+				for _, in := range b.Instrs {
+					if cl, ok := in.(*ssa.Call); ok && staticCallee(cl.Common()) == h {
+						n++
+						if cname(f) != caller {
+							return false
+						}
+					}
+				}
+			}
+		}
+		return n > 0
+	}
 	for _, fs := range fstores {
 		c := fmt.Sprintf("%s#foreign-write:%s", strings.TrimPrefix(fnName(fs.fn), pkgTemplate+"."), fs.field)
 		pos := p.Pos(fs.st.Pos())
 		key := cname(fs.fn) + "|" + fs.field
+		if arguedSafe[key] == "" && arguedSafe["commit|"+fs.field] != "" && onlyCalledBy(fs.fn, "commit") {
+			key = "commit|" + fs.field
+		}
 		switch {
 		case fs.fresh:
 			r.OK("C09.R2", c, pos, "object created in the same function (not yet published)")
